@@ -179,6 +179,11 @@ class Xform(ast.NodeTransformer):
                     names.add(x.id)
                 elif isinstance(x, (ast.AugAssign,)) and isinstance(x.target, ast.Name):
                     names.add(x.target.id)
+                elif isinstance(x, ast.Subscript) and isinstance(x.ctx, ast.Store) and isinstance(x.value, ast.Name):
+                    names.add(x.value.id)         # d[k] = v mutates the local d: carried (havoced) like an assignment
+                elif isinstance(x, ast.Call) and isinstance(x.func, ast.Attribute) and isinstance(x.func.value, ast.Name) \
+                        and x.func.attr in ('append', 'update', 'extend', 'add', 'put', 'pop', 'remove', 'clear', 'insert'):
+                    names.add(x.func.value.id)
         return sorted(n for n in names if not n.startswith('__'))
 
     def visit_For(self, node):
